@@ -45,6 +45,7 @@ var c18E1 = []string{
 	"a", "a[*].b", "a[0]", "[a, b]", "{x: a, y: b}", "a[?b]", "a[]", "a.*", "a[1:]", "length(a)", "keys(a)", "values(a)", "sort(a)", "reverse(a)",
 	"to_array(a)", "a + b", "-a", "abs(a)", "sum(a)", "avg(a)", "max(a)", "items(a)", "merge(a, b)", "zip(a, b)", "split(a, b)", "type(a)", "to_number(a)",
 	"missing", "a.missing", "a[5]", "`null`", "a / b", "a * b", "`1e4000` / a", "`1e4000` / `1e-4000`", "[`-1e4000` / `1e-4000`]", "{x: `1e6000` * `1e6000`}", "`9e6144` * a", "a / `1e-6000`", "sum([a, `9e6144`, `9e6144`])",
+	"abs(`1e7000`)", "max([`1e7000`, a])", "-`1e7000`", "ceil(`-1e7000`)", "min([a, `-1e7000`])", "[floor(`1e7000`)]", "{x: abs(`-1e7000`)}", "max_by([`1e7000`], &@)",
 	"find_first(a, b)", "ceil(a)", "not_null(a, b)", "map(&b, a)", "group_by(a, &b)", "from_items(a)", "a == b", "a < b", "!a", "a && b", "join(b, a)", "pad_left(a, `3`)",
 }
 
